@@ -10,6 +10,7 @@ const (
 	ExtPlain = "scratch/ext"
 	ExtDupA  = "scratch/a/dup"
 	ExtDupB  = "scratch/b/dup"
+	ExtThird = "scratch/third" // only referenced by field types of ext structs: never named by user code
 )
 
 // Std is the standard leaf set of a universe: the named types every shape list is built from.
@@ -32,6 +33,8 @@ type Std struct {
 	XN    *Type // imported named basic
 	// named composites
 	NSlice, NMap, NArr, NPtr *Type
+	SU *Type // local struct with underscore-prefixed field names and a blank field
+	XT *Type // imported struct whose field types come from a THIRD package
 }
 
 // NewStd declares the standard leaf types.
@@ -59,6 +62,10 @@ func NewStd(u *Universe) *Std {
 	s.XDupA = u.DeclareAs(ExtDupA, "T", StructOf(F("X", B("int")), F("Y", Slice(B("string")))))
 	s.XDupB = u.DeclareAs(ExtDupB, "T", StructOf(F("X", B("string")), F("Z", Ptr(B("bool")))))
 
+	tm := u.DeclareAs(ExtThird, "Meters", B("float64"))
+	tp := u.DeclareAs(ExtThird, "Point", StructOf(F("X", B("int")), F("Y", B("int"))))
+	s.XT = u.DeclareAs(ExtPlain, "Span", StructOf(F("Len", tm), F("At", tp), F("S", Slice(B("int")))))
+	s.SU = u.DeclareAs("", "SU", StructOf(F("A", B("int")), F("_b", B("string")), F("_c", Slice(B("int"))), F("_", B("int32")), F("D", B("bool"))))
 	s.NSlice = u.DeclareAs("", "NSlice", Slice(B("int")))
 	s.NMap = u.DeclareAs("", "NMap", Map(B("string"), s.SV))
 	s.NArr = u.DeclareAs("", "NArr", Array(3, B("string")))
